@@ -1075,6 +1075,9 @@ func (s *summarizer) callTerm(x *ssa.Call) *Term {
 	default:
 		if b, ok := cm.Value.(*ssa.Builtin); ok {
 			name = "builtin:" + b.Name()
+			if b.Name() == "len" && len(cm.Args) == 1 && isString(cm.Args[0].Type()) {
+				name = "builtin:lenstr"
+			}
 		} else {
 			if isValueGeneratorSig(cm.Value.Type()) {
 				// every random draw is a different value: number the draws of one generator in traversal order
